@@ -96,6 +96,41 @@ def o2_receiver(ctx, role, lvl, relay, n):
     ctx.reached()
 
 
+def o2_relay_fragments(ctx, role, lvl, n):
+    """a relaying node receives a FRAGMENTED multicast (n > 24 bytes, in order): every fragment is re-broadcast byte-identical to the
+    next level, unacknowledged, and the node's own application gets the reassembled message once"""
+    from specs import frag_spec as FS
+    clock = fresh_env(ctx)
+    radio, node, addr = build_node(ctx, clock, role, lvl)
+    link, _ = per_packet_link(ctx, radio, always=False)
+    node.multicast_relay = True
+    f = sym_addr(ctx, "F", ctx.choice("origin_level", 5))
+    ctx.assume(f != addr)
+    mtype, fid = ctx.int("type", 0, 127), ctx.int("id", 0, 0xFFFF)
+    data = blist(ctx.bytes("msg", n))
+    frames = []
+    for fr in FS.fragments(f, MC, fid, mtype, data):
+        frames.append([fr["from_node"] & 0xFF, fr["from_node"] >> 8, MC & 0xFF, MC >> 8, fid & 0xFF, fid >> 8, fr["message_type"], fr["reserved"]]
+                      + [fr[("b", j)] for j in range(fr["len"])])
+    sent0 = len(radio.sent)
+    for w in frames:  # one update() per fragment (the RX FIFO holds three)
+        radio.inject_rx(0, w)
+        node.update()
+    pk = distinct_packets(radio, sent0)
+    ctx.check(len(pk) == len(frames), "every fragment is re-broadcast exactly once")
+    for e, w in zip(pk, frames):
+        ctx.check(bytes_eq(e["addr"], NS.level_addr(lvl + 1)), "re-broadcast to the next level's address")
+        ctx.check(e["no_ack"] == True, "re-broadcast without requesting an acknowledgement")  # noqa: E712
+        ctx.check(len(e["data"]) == len(w) and bytes_eq(e["data"], w), "the re-broadcast fragment is byte-identical (type and counter included)")
+    q = queue_frames(node)
+    ctx.check(len(q) == 1, "the reassembled multicast is queued exactly once for the application")
+    if len(q) == 1:
+        ctx.check(s_and(q[0].header.from_node == f, q[0].header.message_type == mtype, len(q[0].message) == n and bytes_eq(q[0].message, data)),
+                  "reassembled with identical bytes, type and origin")
+    listening_ok(ctx, radio, addr, "after a relayed fragmented multicast")
+    ctx.reached()
+
+
 TREE = [0, 0o1, 0o2, 0o3, 0o11, 0o21, 0o12, 0o13, 0o111, 0o211, 0o112, 0o1111, 0o2111]
 
 
@@ -165,6 +200,9 @@ def jobs(tier):
             for ack in (False, True):
                 out.append(Job("O3-no-hardware-ack-on-pipe0-after-unicast", c07.h_history,
                                dict(role="net", lvl=lvl, ops=[op], n=0, ack_arrives=ack), cost=10, shards=3))
+    for role, lvl, n in ((("net", 1, 30), ("net", 3, 60)) if tier == "quick" else
+                         (("net", 1, 30), ("net", 2, 49), ("net", 3, 60), ("mesh", 2, 25), ("net", 1, 144))):
+        out.append(Job("O2-relay-of-a-fragmented-multicast", o2_relay_fragments, dict(role=role, lvl=lvl, n=n), cost=10))
     for role in ("routing", "net", "mesh", "master"):
         for lvl in ((0,) if role == "master" else range(0 if role != "mesh" else 1, 5)):
             for relay in (False, True):
